@@ -144,3 +144,12 @@ CHECKS["C05"] = {
     "note": "Declined clauses: whitespace amount and kind, glued separators, CRLF, blank lines, line-break positions (L1 string machine). Trusted: PLY lexer rule ordering, CPython re.",
 }
 NOT_APPLICABLE.pop("C05", None)
+CHECKS["C06"] = {
+    "engine": "E3 lexmodel x E4 deriv (kwnames, verbatim-names, normalize-names fragments) + E5 rules",
+    "category": "model_checking",
+    "technique": "static fixed points: every keyword-table key in both spellings in column / table naming positions; the columns+constraints fragment with every identifier position in four quoting styles, evaluated abstractly with normalize_names False and True against key-level expectations; lexer-rule prefix probes; flag def-use",
+    "text": "For all statements of the fragments: every grammar keyword outside the property's exception list is accepted verbatim as column name (first and later) and as table name (after TABLE, after `schema.`); schema, table, column, constraint and referenced names in plain / double-quoted / back-ticked / bracketed form are reported exactly as written; with normalize_names=True exactly the one outer delimiter pair is removed and nothing else in the produced column / table dicts changes; no keyword-prefixed identifier is split by an earlier lexer rule; only the single `id` production reads the flag.",
+    "design_ref": "DESIGN.md section 4 C06",
+    "note": "Assumed: words separated as pre_process_data intends. Known finding: CREATE SCHEMA strips back-ticks. Sequence / index / alter naming positions are decided by the C17 / C04 fragments.",
+}
+NOT_APPLICABLE.pop("C06", None)
